@@ -23,6 +23,7 @@ import (
 	"sort"
 	"strconv"
 	"strings"
+	"sync/atomic"
 	"syscall"
 	"time"
 
@@ -42,11 +43,26 @@ type costMeasure struct {
 	DecNs    int64
 	EncLen   int
 	Hang     bool   // watchdog fired or decode took longer than c09HangLimit
+	Skipped  bool   // not measured: a failure is on record and the time budget for finding more is spent
 	Died     string // probe died (out of memory, fatal error)
 	Names    uint64 // bytes of decoded domain names in the value (rfc1035label.Labels)
 }
 
 const c09HangLimit = 10 * time.Second
+
+// Once a failure is on record the search for further ones is bounded in time: a
+// change that makes thousands of inputs slow (each still under the watchdog)
+// would otherwise keep the check busy for an hour without adding information.
+// Without a failure nothing is ever skipped.
+var (
+	c09FailureSeen atomic.Bool
+	c09SkipAfter   atomic.Int64 // unix nanoseconds; 0 = no limit
+)
+
+func c09BudgetSpent() bool {
+	d := c09SkipAfter.Load()
+	return d != 0 && c09FailureSeen.Load() && time.Now().UnixNano() > d
+}
 
 // ---- probe side -----------------------------------------------------------
 
@@ -161,9 +177,9 @@ func c09DepthOf(val any) int {
 // sub-slices of one buffer (vendor sub-options alias the ReadAll copy) are not
 // counted once per alias.
 type c09DeepSizer struct {
-	seen map[uintptr]struct{}
-	ivs  [][2]uintptr
-	flat uint64
+	seen  map[uintptr]struct{}
+	ivs   [][2]uintptr
+	flat  uint64
 	names uint64
 }
 
@@ -441,6 +457,9 @@ func (c *costClient) stop() {
 
 // measure runs one input through the probe (restarting it when needed).
 func (c *costClient) measure(entry string, b []byte) costMeasure {
+	if c09BudgetSpent() {
+		return costMeasure{N: len(b), Skipped: true, Hang: true}
+	}
 	// watchdog: 5 s for small inputs (they decode in milliseconds), up to 20 s
 	// for a full-size datagram (the dearest legitimate input needs ~2 s of wall
 	// time for decode + re-encode when several probes run side by side)
